@@ -76,6 +76,7 @@ func c19(c *Ctx) {
 	c19forward(c)
 	c19deviceUpdate(c)
 	c19values(c)
+	c19releaseKnownOnly(c)
 	r.Decides("every persisted allocation annotation is written and read back with one key and one Go type, and that type survives JSON encoding by structural induction (exported, tagged, no interface/func/chan, no lossy custom marshaler)")
 	r.Decides("the key written at pre-bind by each plugin is read on that plugin's pod informer path")
 	r.Decides("the allocation record rebuilt from the annotations sets every field the allocating path sets, and reads every field the pre-bind path persisted; a persisted allocation is dropped by the rebuild only when it is completely empty")
